@@ -88,6 +88,8 @@ type Scenario struct {
 	Perturb    float64   `json:"perturb"`
 	Storm      bool      `json:"storm"`
 	OwnHandles bool      `json:"ownHandles"`
+	CbErrPct   int       `json:"cbErrPct"` // the observable callback returns an error in this share of its calls
+	CbErrAt    []int     `json:"cbErrAt"`  // ... and at these invocations (1-based count per scenario), for directed schedules
 	Seed       int64     `json:"seed"`
 }
 
@@ -431,19 +433,38 @@ func runScenario(scn int, sc Scenario, tw *vh.TraceWriter, res *vh.Result) {
 		}
 	}
 	if sc.Callback {
+		var cbMu sync.Mutex
+		cbCalls := 0
+		cbRng := rand.New(rand.NewSource(sc.Seed + 5))
 		_, err := meter.Int64ObservableGauge("cbgate", metric.WithInt64Callback(func(ctx context.Context, _ metric.Int64Observer) error {
+			src := "run"
 			if pi, ok := ctx.Value(procKey{}).(procInfo); ok {
-				if pi.sc == scn {
-					sched.Arrive(pi.gate + "@cb")
+				if pi.sc != scn {
+					return nil
 				}
-				return nil
+				src = pi.proc
+				sched.Arrive(pi.gate + "@cb")
+			} else {
+				// a collection without a caller identity is the run loop of a periodic reader; which one is not
+				// observable here, scripted scenarios have at most one
+				for _, rc := range sc.Readers {
+					if rc.Kind == "periodic" {
+						sched.Arrive("run_" + rc.Name + "@cb")
+						break
+					}
+				}
 			}
-			// a collection without a caller identity is the run loop of a periodic reader; which one is not
-			// observable here, scripted scenarios have at most one
-			for _, rc := range sc.Readers {
-				if rc.Kind == "periodic" {
-					sched.Arrive("run_" + rc.Name + "@cb")
-					break
+			if sc.CbErrPct > 0 || len(sc.CbErrAt) > 0 {
+				cbMu.Lock()
+				cbCalls++
+				fail := sc.CbErrPct > 0 && cbRng.Intn(100) < sc.CbErrPct
+				for _, k := range sc.CbErrAt {
+					fail = fail || k == cbCalls
+				}
+				cbMu.Unlock()
+				if fail {
+					log.put(event{ev: "CbErr", src: src})
+					return errors.New("callback failed")
 				}
 			}
 			return nil
@@ -518,27 +539,36 @@ func runScenario(scn int, sc Scenario, tw *vh.TraceWriter, res *vh.Result) {
 		})
 	}
 	// ---- collectors
-	doCollect := func(proc, gate string, lr *liveReader) {
+	// rm is owned by the caller and reused across its collections (the documented pattern: produce and the
+	// compute functions recycle the slices they find in it)
+	doCollect := func(proc, gate string, lr *liveReader, rm *metricdata.ResourceMetrics) {
 		ctx := context.WithValue(context.Background(), procKey{}, procInfo{gate: gate, proc: proc, sc: scn})
-		var rm metricdata.ResourceMetrics
 		sched.Arrive(gate + "@call")
 		log.put(event{ev: "Call", op: "Collect", proc: proc, rd: lr.c.Name})
-		err := lr.collect(ctx, &rm)
+		err := lr.collect(ctx, rm)
 		var pts []pt
 		var ivs []ivT
 		bad := false
-		if err == nil {
-			pts, ivs, bad = proj.project(&rm)
+		es := errStr(err)
+		if es == "other" && (sc.CbErrPct > 0 || len(sc.CbErrAt) > 0) {
+			es = "partial" // a callback failed: produce hands out the data together with the error
 		}
-		log.put(event{ev: "Ret", op: "Collect", proc: proc, rd: lr.c.Name, err: errStr(err), pts: pts, ivs: ivs, bad: bad})
+		if es == "" || es == "partial" {
+			pts, ivs, bad = proj.project(rm)
+		}
+		log.put(event{ev: "Ret", op: "Collect", proc: proc, rd: lr.c.Name, err: es, pts: pts, ivs: ivs, bad: bad})
 	}
 	for _, c := range sc.Cols {
 		c := c
 		r := rand.New(rand.NewSource(rng.Int63()))
 		lr := readers[c.Reader]
 		start(c.Name, func() {
+			rm := &metricdata.ResourceMetrics{}
 			jitter(r, c.DelayUs)
 			for k := 0; k < c.N; k++ {
+				if (!sc.Storm && r.Intn(4) == 0) || sc.CbErrPct > 0 || len(sc.CbErrAt) > 0 {
+					rm = &metricdata.ResourceMetrics{} // sometimes a fresh one (always if Collect may fail half-way)
+				}
 				if sc.Storm {
 					// pace: wait until another Add has started (or all are done) so that collections race with recording
 					seen := atomic.LoadInt64(&addsStarted)
@@ -550,7 +580,7 @@ func runScenario(scn int, sc Scenario, tw *vh.TraceWriter, res *vh.Result) {
 				} else {
 					jitter(r, 400)
 				}
-				doCollect(c.Name, fmt.Sprintf("%s:%d", c.Name, k+1), lr)
+				doCollect(c.Name, fmt.Sprintf("%s:%d", c.Name, k+1), lr, rm)
 			}
 		})
 	}
@@ -636,10 +666,10 @@ func runScenario(scn int, sc Scenario, tw *vh.TraceWriter, res *vh.Result) {
 		// periodic readers are flushed and shut down (final collection of Shutdown)
 		for _, lr := range order {
 			if lr.manual != nil {
-				doCollect("fin_"+lr.c.Name, "fin_"+lr.c.Name, lr)
+				doCollect("fin_"+lr.c.Name, "fin_"+lr.c.Name, lr, &metricdata.ResourceMetrics{})
 			} else {
 				doCall("FF", "finF_"+lr.c.Name, "finF_"+lr.c.Name, CallerC{Reader: lr.c.Name})
-				doCollect("fin_"+lr.c.Name, "fin_"+lr.c.Name, lr)
+				doCollect("fin_"+lr.c.Name, "fin_"+lr.c.Name, lr, &metricdata.ResourceMetrics{})
 				doCall("SD", "finS_"+lr.c.Name, "finS_"+lr.c.Name, CallerC{Reader: lr.c.Name})
 			}
 		}
@@ -692,11 +722,14 @@ func runScenario(scn int, sc Scenario, tw *vh.TraceWriter, res *vh.Result) {
 	rank := func(t time.Time) int {
 		return sort.Search(len(uniq), func(i int) bool { return uniq[i].Compare(t) >= 0 })
 	}
-	var nonEmptyDelta, reports, exportsRun, exportsSD, ffOK, sdOK, collectErr int64
+	var nonEmptyDelta, reports, exportsRun, exportsSD, ffOK, sdOK, collectErr, cbErrs int64
 	for i := 0; i < n; i++ {
 		e := &log.evs[i]
 		m := map[string]any{"ev": e.ev, "sc": scn}
 		switch {
+		case e.ev == "CbErr":
+			m["src"] = e.src
+			cbErrs++
 		case e.op == "Add":
 			m["op"], m["k"], m["i"] = "Add", e.key, e.i
 		case e.ev == "Call":
@@ -712,7 +745,7 @@ func runScenario(scn int, sc Scenario, tw *vh.TraceWriter, res *vh.Result) {
 		default: // Ret Collect / Export
 			if e.ev == "Ret" {
 				m["op"], m["proc"], m["err"] = "Collect", e.proc, e.err
-				if e.err != "" {
+				if e.err == "shutdown" {
 					collectErr++
 				}
 			} else {
@@ -749,6 +782,7 @@ func runScenario(scn int, sc Scenario, tw *vh.TraceWriter, res *vh.Result) {
 	res.Count("forceflush_ok", ffOK)
 	res.Count("shutdown_ok", sdOK)
 	res.Count("collect_after_shutdown", collectErr)
+	res.Count("callback_errors", cbErrs)
 	for _, lr := range order {
 		if lr.exp != nil {
 			res.Count("nonempty_exports_with_cancelled_ctx", atomic.LoadInt64(&lr.exp.cancelled))
@@ -786,6 +820,9 @@ func randomScenario(r *rand.Rand, storm bool) Scenario {
 	pick := func(xs ...int) int { return xs[r.Intn(len(xs))] }
 	sc := Scenario{Seed: r.Int63(), Storm: storm, Filter: r.Intn(3) > 0, Callback: r.Intn(3) == 0, OwnHandles: r.Intn(4) == 0,
 		Perturb: []float64{0, 0.15, 0.5}[r.Intn(3)]}
+	if sc.Callback && r.Intn(3) == 0 {
+		sc.CbErrPct = 10 + r.Intn(40)
+	}
 	nr := 1 + r.Intn(3)
 	nper := 0
 	for i := 0; i < nr; i++ {
